@@ -1,12 +1,441 @@
 /-
 Props/C17.lean — property theorems for C17 (the strings inspector behaves like the sequence it wraps).
+
+For the repaired runtime model (`LibCfg.fixed`), every sequence value, every argument form, every path,
+operator, operand and source: the outcome of Get / Compare / Length / Capacity / Set / DeepEqual / Loop /
+CopyTo / Reset is accepted by the independent specification (Spec/StringsSpec.lean), with exactly the
+pairing and the per-form guards the driver applies (Driver/LibOps.lean `stringsOp*`; the `…Acc` functions
+below are those guards, copied). The model of the current tree is rejected on the classes
+`strings-set-empty-noop`, `strings-empty-unequal`, `strings-cmp-out-of-range`, `strings-nil-ptr-panics`
+(`repo_not_correct_*`).
 -/
-import InspectorModel.Lib.Strings
-import InspectorModel.Spec.StringsSpec
+import InspectorModel.Proofs.C17
 namespace Inspector.C17
+
+/-! ### The driver's acceptance guards (Driver/LibOps.lean, `acc` of each `stringsOp*` handler) -/
+
+def getAcc (isB : Bool) (f : Form) (v : Val) (p : List Seg) (o : GetOut) : Bool :=
+  match f with
+  | .val | .ptr => stringsGetAccepts isB v p o
+  | .nilPtr => true
+  | _ => o == .none
+
+def cmpAcc (f : Form) (v : Val) (p : List Seg) (op : Op) (right : Seg) (o : CmpOut) : Bool :=
+  match f with
+  | .val | .ptr => stringsCmpAccepts v p op right o
+  | .nilPtr => true
+  | _ => o == .untouched
+
+def lcAcc (isCap isB : Bool) (f : Form) (v : Val) (p : List Seg) (o : LcOut) : Bool :=
+  match f with
+  | .val | .ptr => stringsLcAccepts isCap isB v p o
+  | .nilPtr => true
+  | _ => o == .untouched || o == .unsupported
+
+/-- For the forms `sp` refuses the driver demands the unchanged root; `SetOut` has no `BEq`, so that arm is
+the separate theorem `set_refused`. -/
+def setAcc (isB : Bool) (f : Form) (v : Val) (p : List Seg) (src : Src) (o : SetOut) : Bool :=
+  match f with
+  | .val | .ptr => stringsSetAccepts isB v p src o
+  | _ => true
+
+def isSeqForm (f : Form) : Bool := f == .val || f == .ptr
+
+def deqAcc (fl fr : Form) (a b : Val) (o : DeqOut × DeqOut) : Bool :=
+  if isSeqForm fl && isSeqForm fr then stringsDeqAccepts a b o.1 && stringsDeqAccepts b a o.2
+  else if fl == .nilPtr || fr == .nilPtr then true
+  else o.1 == .f && o.2 == .f
+
+/-! ### Get -/
+
+theorem get_correct (isB : Bool) (f : Form) (v : Val) (p : List Seg) :
+    getAcc isB f v p (stringsGet LibCfg.fixed isB f v p) = true := by
+  unfold getAcc stringsGet
+  match p with
+  | [] => cases f <;> rfl
+  | _ :: _ :: _ => cases f <;> rfl
+  | [s] =>
+    have key : stringsGetAccepts isB v [s]
+        (match atoiSeg s with
+         | none => .err
+         | some idx =>
+           if inRangeIdx idx (seqElems v).length then
+             (match nth? (seqElems v) idx.toNat with
+              | some e => .some (if isB then "Y" else "string") e
+              | none => .none)
+           else .none) = true := by
+      unfold stringsGetAccepts
+      simp only [seqAddr_eq]
+      cases atoiSeg s with
+      | none => rfl
+      | some idx =>
+        simp only []
+        cases hr : inRangeIdx idx (seqElems v).length
+        · simp only [Bool.false_eq_true, if_false]; rfl
+        · simp only [if_true]
+          cases nth? (seqElems v) idx.toNat with
+          | none => rfl
+          | some e => exact GetOut.beq_refl _
+    cases f <;> first | exact key | rfl
+
+/-- The repaired model never panics on Get. -/
+theorem get_no_panic (isB : Bool) (f : Form) (v : Val) (p : List Seg) :
+    (stringsGet LibCfg.fixed isB f v p == .panic) = false := by
+  unfold stringsGet
+  match p with
+  | [] => rfl
+  | _ :: _ :: _ => rfl
+  | [s] =>
+    cases f <;> simp only [spOf, LibCfg.fixed, Bool.false_eq_true, if_false] <;> try rfl
+    all_goals
+      cases atoiSeg s with
+      | none => rfl
+      | some idx =>
+        simp only []
+        cases inRangeIdx idx (seqElems v).length
+        · rfl
+        · simp only [if_true]; cases nth? (seqElems v) idx.toNat <;> rfl
+
+/-! ### Compare -/
+
+theorem cmp_correct (f : Form) (v : Val) (p : List Seg) (op : Op) (right : Seg) :
+    cmpAcc f v p op right (stringsCmp LibCfg.fixed f v p op right) = true := by
+  unfold cmpAcc stringsCmp
+  match p with
+  | [] => cases f <;> rfl
+  | _ :: _ :: _ => cases f <;> rfl
+  | [s] =>
+    have key : stringsCmpAccepts v [s] op right
+        (match atoiSeg s with
+         | none => .err
+         | some idx =>
+           if idx < 0 then .untouched
+           else if inRangeIdx idx (seqElems v).length then
+             (match nth? (seqElems v) idx.toNat with
+              | some e => strCmpSix op (elemText e) right.text
+              | none => .untouched)
+           else if LibCfg.fixed.stringsCmpOutOfRange then strCmpSix op [] right.text else .untouched) = true := by
+      unfold stringsCmpAccepts
+      simp only [seqAddr_eq]
+      cases atoiSeg s with
+      | none => rfl
+      | some idx =>
+        simp only []
+        cases hr : inRangeIdx idx (seqElems v).length
+        · simp only [Bool.false_eq_true, if_false, LibCfg.fixed]
+          by_cases hn : idx < 0
+          · rw [if_pos hn]; rfl
+          · rw [if_neg hn]; rfl
+        · have hn : ¬ idx < 0 := by have := (inRangeIdx_iff _ _).1 hr; omega
+          simp only [if_true]
+          rw [if_neg hn]
+          cases nth? (seqElems v) idx.toNat with
+          | none => rfl
+          | some e => exact strCmpSix_native op (elemText e) right.text
+    cases f <;> first | exact key | rfl
+
+/-- The repaired model never panics on Compare. -/
+theorem cmp_no_panic (f : Form) (v : Val) (p : List Seg) (op : Op) (right : Seg) :
+    stringsCmp LibCfg.fixed f v p op right ≠ .panic := by
+  have hsix : ∀ l r, strCmpSix op l r ≠ .panic := by
+    intro l r
+    unfold strCmpSix
+    repeat' split
+    all_goals (intro h; cases h)
+  unfold stringsCmp
+  match p with
+  | [] => intro h; cases h
+  | _ :: _ :: _ => intro h; cases h
+  | [s] =>
+    cases f <;> simp only [spOf, LibCfg.fixed, Bool.false_eq_true, if_false] <;> try (intro h; cases h)
+    all_goals
+      cases atoiSeg s with
+      | none => intro h; cases h
+      | some idx =>
+        simp only []
+        repeat' split
+        all_goals first | exact hsix _ _ | (intro h; cases h)
+
+/-! ### Length / Capacity -/
+
+theorem lc_correct (isCap isB : Bool) (f : Form) (v : Val) (p : List Seg) :
+    lcAcc isCap isB f v p (stringsLc LibCfg.fixed isCap isB f v p) = true := by
+  have key : stringsLcAccepts isCap isB v p
+      (match p with
+       | [s] =>
+         (match atoiSeg s with
+          | none => .err
+          | some idx =>
+            if inRangeIdx idx (seqElems v).length && (!isCap || isB) then
+              (match nth? (seqElems v) idx.toNat with
+               | some e => .val (lenOf isCap e)
+               | none => .untouched)
+            else .untouched)
+       | _ =>
+         if (seqElems v).isEmpty then .untouched
+         else if isCap then (if isB then .val (seqCap v) else .untouched)
+         else .val (seqElems v).length) = true := by
+    match p with
+    | [] =>
+      unfold stringsLcAccepts
+      simp only []
+      cases he : (seqElems v).isEmpty <;> cases isCap <;> cases isB <;> simp
+    | _ :: _ :: _ => rfl
+    | [s] =>
+      unfold stringsLcAccepts
+      simp only [seqAddr_eq]
+      cases atoiSeg s with
+      | none => rfl
+      | some idx =>
+        simp only []
+        cases hr : inRangeIdx idx (seqElems v).length
+        · simp
+        · simp only [if_true, Bool.true_and]
+          cases hn : nth? (seqElems v) idx.toNat with
+          | none => simp
+          | some e => cases isCap <;> cases isB <;> simp
+  unfold lcAcc stringsLc
+  cases f <;> first | exact key | rfl
+
+theorem lc_no_panic (isCap isB : Bool) (f : Form) (v : Val) (p : List Seg) :
+    stringsLc LibCfg.fixed isCap isB f v p ≠ .panic := by
+  unfold stringsLc
+  cases f <;> simp only [spOf, LibCfg.fixed, Bool.false_eq_true, if_false] <;> try (intro h; cases h)
+  all_goals
+    repeat' split
+    all_goals (intro h; cases h)
+
+/-! ### Set -/
+
+theorem set_correct (isB : Bool) (f : Form) (v : Val) (p : List Seg) (src : Src) :
+    setAcc isB f v p src (stringsSet LibCfg.fixed isB f v p src) = true := by
+  have key : stringsSetAccepts isB v p src
+      (match p with
+       | [s] =>
+         (match atoiSeg s with
+          | none => .err v
+          | some idx =>
+            if !inRangeIdx idx (seqElems v).length then .ok v else
+            match setText isB src with
+            | none => .ok v
+            | some none => .panic
+            | some (some t) =>
+              if t.isEmpty && LibCfg.fixed.stringsSetEmptyNoop then .ok v
+              else
+                let e : Val := if isB then .bytes false t t.length else .str t
+                (match v with
+                 | .slice nl es c => .ok (.slice nl (replaceNth es idx.toNat e) c)
+                 | _ => .ok v))
+       | _ => .ok v) = true := by
+    match p with
+    | [] => simp [stringsSetAccepts]
+    | _ :: _ :: _ => simp [stringsSetAccepts]
+    | [s] =>
+      simp only []
+      cases ha : atoiSeg s with
+      | none =>
+        have hm : atoiM s.text = none := ha
+        simp [stringsSetAccepts, seqAddr_eq, ha]
+      | some idx =>
+        have hm : atoiM s.text = some idx := ha
+        simp only []
+        cases hr : inRangeIdx idx (seqElems v).length
+        · simp [stringsSetAccepts, seqAddr_eq, ha, hr]
+        · have hrange := (inRangeIdx_iff _ _).1 hr
+          have hlt : idx.toNat < (seqElems v).length := by omega
+          obtain ⟨e0, he0⟩ := nth?_some_of_lt (seqElems v) idx.toNat hlt
+          simp only [Bool.not_true, Bool.false_eq_true, if_false]
+          cases hst : setText isB src with
+          | none =>
+            simp [stringsSetAccepts, seqAddr_eq, ha, hr, he0, hst, hm]
+          | some ot =>
+            cases ot with
+            | none =>
+              simp only [stringsSetAccepts]
+              exact setText_some_none isB src hst
+            | some t =>
+              simp only [LibCfg.fixed, Bool.and_false, Bool.false_eq_true, if_false]
+              cases v with
+              | slice nl es c =>
+                have hlt' : idx.toNat < es.length := hlt
+                simp only [seqElems] at hr he0
+                have hrep := replaceNth_map_text (if isB then Val.bytes false t t.length else .str t) es idx.toNat hlt'
+                have het : elemText (if isB then Val.bytes false t t.length else .str t) = t := by
+                  cases isB <;> rfl
+                rw [het] at hrep
+                simp only [stringsSetAccepts, seqAddr_eq, ha, hr, he0, hst, hm, seqElems, if_true, hrep]
+                simp
+              | _ => simp [seqElems] at hlt
+  unfold setAcc stringsSet
+  cases f <;> first | exact key | rfl
+
+/-- Forms `sp` refuses (`**[]string`, untyped nil, foreign types, and — repaired — typed-nil pointers):
+nothing happens. The driver's guard for these forms is `o == .ok v`. -/
+theorem set_refused (isB : Bool) (f : Form) (v : Val) (p : List Seg) (src : Src) (hf : isSeqForm f = false) :
+    stringsSet LibCfg.fixed isB f v p src = .ok v := by
+  unfold stringsSet
+  match p with
+  | [] => rfl
+  | _ :: _ :: _ => rfl
+  | [s] => cases f <;> first | rfl | (simp [isSeqForm] at hf)
+
+/-- What the driver observes of the destination (`dropCaps`: capacities and nil-versus-empty forgotten) denotes
+the same sequence of texts, so `stringsSetAccepts` judges the observation as it judges the outcome. -/
+theorem dropCaps_texts (v : Val) : (seqElems (dropCaps v)).map elemText = (seqElems v).map elemText := by
+  have h1 : ∀ (f : Nat) (e : Val), elemText (dropCapsFuel f e) = elemText e := by
+    intro f e
+    cases f with
+    | zero => rfl
+    | succ f => cases e <;> rfl
+  cases v with
+  | slice nl es c =>
+    show (es.map (dropCapsFuel 63)).map elemText = es.map elemText
+    rw [List.map_map]
+    apply List.map_congr_left
+    intro e _
+    exact h1 _ e
+  | _ => rfl
+
+/-! ### DeepEqual -/
+
+theorem deq_seq (a b : Val) :
+    stringsDeqAccepts a b
+      (let x := (seqElems a).map elemText
+       let y := (seqElems b).map elemText
+       if x.isEmpty || y.isEmpty then
+         (if LibCfg.fixed.stringsEmptyUnequal then .f else (if x.isEmpty && y.isEmpty then .t else .f))
+       else if x == y then .t else .f) = true := by
+  unfold stringsDeqAccepts
+  simp only [LibCfg.fixed, Bool.false_eq_true, if_false]
+  generalize (seqElems a).map elemText = x
+  generalize (seqElems b).map elemText = y
+  cases he : (x.isEmpty || y.isEmpty)
+  · simp only [Bool.false_eq_true, if_false]; exact DeqOut.beq_refl _
+  · simp only [if_true]
+    cases hb : (x.isEmpty && y.isEmpty)
+    · rw [list_empty_ne x y he hb]; rfl
+    · simp only [Bool.and_eq_true] at hb
+      rw [list_empty_beq x y hb.1 hb.2]; rfl
+
+/-- Both directions, as the driver judges them. -/
+theorem deq_correct (fl fr : Form) (a b : Val) :
+    deqAcc fl fr a b (stringsDeq LibCfg.fixed fl fr a b, stringsDeq LibCfg.fixed fr fl b a) = true := by
+  unfold deqAcc
+  cases fl <;> cases fr <;>
+    first
+    | (simp only [isSeqForm]; exact (by
+        show (stringsDeqAccepts a b _ && stringsDeqAccepts b a _) = true
+        rw [Bool.and_eq_true]; exact ⟨deq_seq a b, deq_seq b a⟩))
+    | rfl
+
+theorem deq_no_panic (fl fr : Form) (a b : Val) : stringsDeq LibCfg.fixed fl fr a b ≠ .panic := by
+  unfold stringsDeq
+  cases fl <;> cases fr <;> simp only [spOf, LibCfg.fixed, Bool.false_eq_true, if_false] <;>
+    first
+    | (intro h; cases h)
+    | (repeat' split
+       all_goals (intro h; cases h))
+
+/-! ### Loop -/
+
+/-- The element node the strings inspector hands to the iterator. -/
+def elemNode (isB : Bool) : Node :=
+  if isB then .slice { typn := "[]byte" } (.basic { typn := "byte", typu := "byte" })
+  else .basic { typn := "string", typu := "string" }
+
+/-- Empty path, sequence held by value or pointer: the iterator receives the elements in order, with the
+decimal index as key where it asked for one, up to and including the first Break; the loop ends normally
+(the driver's guard: `fin == "done" && gs.length == expectedCount … && sliceGroupsOk …`). -/
+theorem loop_correct (sc : LoopScript) (isB : Bool) (f : Form) (v : Val) (hf : isSeqForm f = true) :
+    let r := stringsLoop LibCfg.fixed sc isB f v []
+    r.fin = .done ∧ r.groups.length = expectedCount sc (seqElems v).length ∧
+    sliceGroupsOk sc (elemNode isB) (seqElems v) (r.groups.map obsOfGroup) 0 = true := by
+  have hr : stringsLoop LibCfg.fixed sc isB f v [] = ⟨loopElems sc (elemNode isB) (seqElems v) 0, .done⟩ := by
+    cases f <;> first | rfl | (simp [isSeqForm] at hf)
+  show (stringsLoop LibCfg.fixed sc isB f v []).fin = .done ∧
+    (stringsLoop LibCfg.fixed sc isB f v []).groups.length = expectedCount sc (seqElems v).length ∧
+    sliceGroupsOk sc (elemNode isB) (seqElems v) ((stringsLoop LibCfg.fixed sc isB f v []).groups.map obsOfGroup) 0 = true
+  rw [hr]
+  exact ⟨rfl, loopElems_count sc _ _, loopElems_groupsOk sc (elemNode isB) (seqElems v) 0⟩
+
+/-- Any other path, or a form `sp` refuses: no callback, normal end. -/
+theorem loop_nothing (sc : LoopScript) (isB : Bool) (f : Form) (v : Val) (p : List Seg)
+    (h : p.isEmpty = false ∨ isSeqForm f = false) :
+    (stringsLoop LibCfg.fixed sc isB f v p).groups = [] ∧ (stringsLoop LibCfg.fixed sc isB f v p).fin = .done := by
+  unfold stringsLoop
+  cases hp : p.isEmpty
+  · exact ⟨rfl, rfl⟩
+  · rcases h with h | h
+    · rw [hp] at h; cases h
+    · cases f <;> first | exact ⟨rfl, rfl⟩ | (simp [isSeqForm] at h)
+
+/-! ### CopyTo and Reset -/
+
+/-- CopyTo into a pointer appends the source texts; nothing is shared (the driver's guard
+`s == 0 && (seqElems v).map elemText == dst ++ src`). -/
+theorem copyTo_correct (dstIsB : Bool) (fs : Form) (src dst : Val) (hf : isSeqForm fs = true) :
+    ∃ out, stringsCopyTo LibCfg.fixed dstIsB fs .ptr src dst = .ok out 0 ∧
+      (seqElems out).map elemText = (seqElems dst).map elemText ++ (seqElems src).map elemText := by
+  have hs : spOf LibCfg.fixed fs = .seq := by
+    cases fs <;> first | rfl | (simp [isSeqForm] at hf)
+  refine ⟨_, by simp only [stringsCopyTo, hs]; rfl, ?_⟩
+  simp only [seqElems, List.map_append, List.map_map]
+  congr 1
+  apply List.map_congr_left
+  intro e _
+  cases dstIsB <;> rfl
+
+/-- CopyTo into a value is refused with the must-be-pointer error. -/
+theorem copyTo_value (dstIsB : Bool) (fs : Form) (src dst : Val) (hf : isSeqForm fs = true) :
+    (match stringsCopyTo LibCfg.fixed dstIsB fs .val src dst with | .mustPointer => true | _ => false) = true := by
+  cases fs <;> first | rfl | (simp [isSeqForm] at hf)
 
 /-- Reset through a pointer truncates to length zero. -/
 theorem reset_truncates (nl : Bool) (es : List Val) (c : Nat) :
     (match stringsReset .ptr (.slice nl es c) with | .ok v => (seqElems v).length | _ => 1) = 0 := rfl
+
+/-- … for every value (the driver's guard for `.ptr`: `(seqElems x).isEmpty`). -/
+theorem reset_correct (v : Val) :
+    (match stringsReset .ptr v with | .ok x => (seqElems x).isEmpty | _ => false) = true := by
+  cases v <;> rfl
+
+theorem reset_value (v : Val) :
+    (match stringsReset .val v with | .mustPointer => true | _ => false) = true := rfl
+
+section NonVacuity
+def seg (t : String) : Seg := { text := strBytes t }
+/-- `[]string{"ab", "", "é"}` and the same as `[][]byte`. -/
+def exS : Val := .slice false [.str (strBytes "ab"), .str [], .str (strBytes "é")] 3
+def exB : Val := .slice false [.bytes false (strBytes "ab") 2, .bytes false [] 0, .bytes false (strBytes "é") 8] 4
+def srcEmpty : Src := { kind := .string, v := .str [] }
+
+example : (stringsGet LibCfg.fixed false .ptr exS [seg "2"] == .some "string" (.str (strBytes "é"))) = true := by decide
+example : stringsCmp LibCfg.fixed .val exS [seg "0"] 3 (seg "aa") = .set true := by decide
+example : stringsLc LibCfg.fixed true true .ptr exB [seg "2"] = .val 8 := by decide
+example : (match stringsSet LibCfg.fixed false .ptr exS [seg "0"] srcEmpty with
+    | .ok after => (seqElems after).map elemText == [[], [], strBytes "é"] | _ => false) = true := by decide
+example : stringsDeq LibCfg.fixed .ptr .val exS exB = .t := by decide
+example : ((stringsLoop LibCfg.fixed { wantKey := [true], ctl := [0] } false .val exS []).groups.map (·.key))
+    = [some (strBytes "0"), some (strBytes "1"), some (strBytes "2")] := by decide
+
+/-- Known finding `strings-set-empty-noop`: Set with the empty text leaves element 0 as it was. -/
+theorem repo_not_correct_set_empty :
+    stringsSetAccepts false exS [seg "0"] srcEmpty (stringsSet LibCfg.repo false .ptr exS [seg "0"] srcEmpty) = false := by
+  decide
+
+/-- Known finding `strings-empty-unequal`: two empty sequences are reported unequal. -/
+theorem repo_not_correct_empty_unequal :
+    stringsDeqAccepts (.slice false [] 0) (.slice true [] 0)
+      (stringsDeq LibCfg.repo .val .val (.slice false [] 0) (.slice true [] 0)) = false := by
+  decide
+
+/-- Known finding `strings-cmp-out-of-range`: index `len` compares the empty string instead of leaving the result alone. -/
+theorem repo_not_correct_cmp_out_of_range :
+    stringsCmpAccepts exS [seg "3"] 2 (seg "x") (stringsCmp LibCfg.repo .val exS [seg "3"] 2 (seg "x")) = false := by
+  decide
+
+/-- Known finding `strings-nil-ptr-panics`: a typed-nil pointer argument is dereferenced. -/
+theorem repo_nil_ptr_panics : (stringsGet LibCfg.repo false .nilPtr exS [seg "0"] == .panic) = true := by decide
+end NonVacuity
 
 end Inspector.C17
